@@ -106,6 +106,7 @@ func main() {
 			fmt.Println("INCONCLUSIVE: cannot load /repo with the harness overlay:\n" + err.Error())
 			os.Exit(2)
 		}
+		fmt.Fprintln(os.Stderr, "note: harness files that do not type-check against this tree are skipped:\n"+err.Error())
 		var keep []string
 		for v := range overlay {
 			if dropped[v] {
